@@ -365,6 +365,10 @@ pub fn make_volume(vol: &Value) -> Result<Image, String> {
             if tail > 0 {
                 img.fill(size, tail, 0xA5);
             }
+            // a medium that was in use before (quick format): formatting must not rely on finding zeros
+            if let Some(pf) = vol.get("prefill").and_then(Value::as_u64) {
+                img.fill(0, size.min(48 << 20), pf as u8);
+            }
             let mut dev = SimDevice::new(img);
             dev.0.borrow_mut().observe = true;
             let r = catch_unwind(AssertUnwindSafe(|| fatfs::format_volume(&mut dev, opts)));
@@ -907,11 +911,21 @@ thread_local! {
 }
 
 pub fn fs_options(cfg: &Cfg, clock: &Clock) -> FsOptions<Clock, Oem> {
-    FsOptions::new()
-        .time_provider(clock.clone())
-        .oem_cp_converter(cfg.oem)
-        .update_accessed_date(cfg.atime)
-        .strict(cfg.strict)
+    // the options are independent: every order of the builder calls means the same (cfg "optord" picks one; a setter that is not
+    // needed for the requested value may also be left out)
+    let ord = cfg.j.get("optord").and_then(Value::as_u64).unwrap_or(0);
+    match ord % 5 {
+        0 => FsOptions::new().time_provider(clock.clone()).oem_cp_converter(cfg.oem).update_accessed_date(cfg.atime).strict(cfg.strict),
+        1 => FsOptions::new().strict(cfg.strict).update_accessed_date(cfg.atime).time_provider(clock.clone()).oem_cp_converter(cfg.oem),
+        2 => FsOptions::new().update_accessed_date(cfg.atime).oem_cp_converter(cfg.oem).strict(cfg.strict).time_provider(clock.clone()),
+        3 => {
+            // defaults left alone (strict = true, access-date updating off are the documented defaults)
+            let o = FsOptions::new().oem_cp_converter(cfg.oem).time_provider(clock.clone());
+            let o = if cfg.strict { o } else { o.strict(false) };
+            if cfg.atime { o.update_accessed_date(true) } else { o }
+        }
+        _ => FsOptions::new().strict(cfg.strict).time_provider(clock.clone()).update_accessed_date(cfg.atime).oem_cp_converter(cfg.oem),
+    }
 }
 
 /// remount view: mount a clone of the image and list everything through the library
